@@ -303,7 +303,7 @@ def explore_pyapi(case):
         numapi.check_composed(res, B, elems[:16], [], case, "pyapi", firsts=["inverse", "square"], seconds=["g_right_jacobian"])
         numapi.check_aliasing(res, B, elems[:16], [], case, "pyapi", targets)
         numapi.check_spellings(res, B, elems[:8], [v for v in rvs[:8]], case, "pyapi")
-        numapi.check_threads(res, B, elems[1:3], [v for v in rvs[1:3]], case, "pyapi", ("left_jacobian", "right_jacobian", "left_jacobian_inv", "right_jacobian_inv", "g_left_jacobian", "g_right_jacobian"))
+        numapi.check_threads(res, B, numapi.generic_pair(elems), numapi.generic_pair(list(rvs)), case, "pyapi", ("left_jacobian", "right_jacobian", "left_jacobian_inv", "right_jacobian_inv", "g_left_jacobian", "g_right_jacobian"))
         numapi.check_history(res, B, elems, [], case, "pyapi", targets, ["to_Matrix", "Ad", "inverse", "log", "product"] + targets)
         for p in elems:
             res.nontrivial.add(hash(p.tobytes()))
@@ -320,7 +320,7 @@ def explore_pyapi(case):
         numapi.check_aliasing(res, B, [], xs[:14], case, "pyapi", targets, tol=1e-9)
         numapi.check_spellings(res, B, [e for e in (B.vec("exp", x) for x in xs[:6]) if np.all(np.isfinite(e))], xs[:8], case, "pyapi", tol=1e-9)
         numapi.check_history(res, B, [], xs, case, "pyapi", targets, ["exp", "ad", "wedge"] + targets, tol=1e-9)
-        gen_xs = [x for x in xs if np.count_nonzero(x) == len(x)][:2] or xs[1:3]
+        gen_xs = numapi.generic_pair(xs)
         quick_ = tier != "thorough"
         numapi.check_threads(res, B, [], gen_xs, dict(case, tier="thorough"), "pyapi", targets, max_runs=(250 if quick_ else 20000),
                              only_pairs=([("left_jacobian", "left_jacobian"), ("left_jacobian_inv", "right_jacobian")] if quick_ else None))
